@@ -37,6 +37,27 @@ CHECKS = {
         "Trusted: yaml.safe_load as the judge of validity; the linters' own parse_config_file as the definition of `in effect`; the echoed value of `config set` as the accepted value. Depth and value menu are bounded as stated in the evidence.",
         "DESIGN.md section 3 / C20",
     ),
+    "C06": (
+        "model_checking",
+        "exhaustive product of commands x formats x project menu (incl. hostile names/identifiers) and commands x usage-error classes on the real CLI; cross-rendering multiset agreement and structural SARIF validation",
+        "Every linter command is run in all three formats on every project of a menu that yields zero, one and many violations (incl. non-ASCII / quote / newline / undecodable file names and identifiers) and with every class of usage error; exit code vs count, JSON total, SARIF structure / 1-based positions / declared ruleIds, and agreement of the three renderings are checked on every case. The product is finite and taken in full.",
+        "Trusted: hand-written structural schema for the SARIF fragment (official schema unavailable offline); text rendering checked structurally. Hostile names also through a fresh process (real stdout encoding).",
+        "DESIGN.md section 3 / C06",
+    ),
+    "C07": (
+        "model_checking",
+        "stateless schedule enumeration of the real lint_files_parallel under a harness-owned executor: all arrangements of files over worker processes (forked children) x all completion orders, compared with the sequential run",
+        "The real Orchestrator.lint_files_parallel / _collect_parallel_results / _finalize_rules run under a virtual pool that replaces ProcessPoolExecutor/as_completed: for w<=3, n in {2w-1,2w,2w+1}<=6 every arrangement of the n files into <=w ordered worker blocks is executed in forked children and every completion order (n!) is replayed on the stored future results; larger w/n with canonical arrangements and bounded deviations; every CLI command with --parallel; conformance runs against the unpatched real pool in a fresh process. Oracle: multiset over all violation fields and exit code equal to a fresh sequential run.",
+        "Trusted: the virtual pool (fork per worker block, pickled results) as a faithful stand-in for the process pool; worker side and parent side are explored as a product of sets (no shared mutable state between processes). Real OS scheduling is only sampled by the conformance pass.",
+        "DESIGN.md section 3 / C07",
+    ),
+    "C08": (
+        "model_checking",
+        "explicit enumeration of all event histories (lint/edit/delete/add) up to a depth on one long-lived Linter with a differential oracle (fresh Linter on the same disk state); all file-order permutations, discovery orders, hash seeds; before/after snapshots for side effects",
+        "Part 1: every history up to the depth bound over 9 events is replayed on a single long-lived Linter and its final lint result compared with a fresh Linter on the same disk state. Part 2: all permutations of the file list through the API and the CLI, all directory discovery orders (os.walk permuted), PYTHONHASHSEED values through fresh processes for every command. Part 3: snapshots of project tree, TMPDIR and HOME around every command in sequential and parallel mode and both DRY storage modes.",
+        "Trusted: a fresh Linter after resetting the ignore-parser singleton as the reference. Configuration files are not changed during a history. Hash seeds are bounded as stated.",
+        "DESIGN.md section 3 / C08",
+    ),
 }
 
 NOT_APPLICABLE: dict[str, str] = {}
